@@ -1,6 +1,7 @@
 package main
 
 import (
+	"go/types"
 	"fmt"
 	"strings"
 
@@ -286,7 +287,18 @@ func checkC01(cx *Ctx, r *Report) {
 		if c.Parent() != cb {
 			continue // errorResponse forwards its own parameter
 		}
-		okR, why := nonSuccessReason(vf.Labels(c.Common().Args[idx]))
+		// ... and the message next to it says nothing about the user: no subject identifier, no attribute value, and
+		// not the text of the user-info lookup's error (which storage composes from the user's record)
+		if idx+1 < len(c.Common().Args) {
+			var leaks []string
+			for _, l := range vf.Deep(vf.Labels(c.Common().Args[idx+1])).leaves() {
+				if strings.Contains(l, "AuthRequestInt.GetUserID#") || strings.HasPrefix(l, "param:provider.(*Attributes).") || strings.Contains(l, ".SetUserinfoWithUserID#") || strings.HasPrefix(l, "alloc:{provider.Attributes}") {
+					leaks = append(leaks, l)
+				}
+			}
+			r.Check(len(leaks) == 0, "R-VFG", "callback:failed-message@"+w.InstrPos(c), w.InstrPos(c), "the status message of a failed reply carries no user data", "the status message of a failed reply can carry "+strings.Join(leaks, ", ")+": a non-Success reply discloses the subject identifier / user data")
+		}
+		okR, why := nonSuccessReason(cx.expandErrorObjects(vf, vf.Labels(c.Common().Args[idx])))
 		r.Check(okR, "R-VFG", "callback:failed-reason@"+w.InstrPos(c), w.InstrPos(c), "non-Success status constant", "a failure reply of the callback can carry the status "+why)
 	}
 	// sendBackResponse serialises exactly its parameter
@@ -349,4 +361,66 @@ func checkC01(cx *Ctx, r *Report) {
 	}
 	r.Min("R-GUARD", 5)
 	_ = strings.Contains
+}
+
+// expandErrorObjects: `err.Error()` of an error value that is an object of a module type whose Error method hands
+// back one of its fields (a typed error carrying the status code): the values stored into that field.
+func (cx *Ctx) expandErrorObjects(vf *VFlow, ls LabelSet) LabelSet {
+	w := cx.W
+	out := LabelSet{}
+	for l, f := range ls {
+		if !strings.HasPrefix(l, "alloc:{") {
+			out[l] |= f
+			continue
+		}
+		tk := l[len("alloc:{"):]
+		i := strings.Index(tk, "}")
+		if i < 0 {
+			out[l] |= f
+			continue
+		}
+		tk = tk[:i] // e.g. provider.loginError
+		field := ""
+		for _, fn := range w.Funcs {
+			recv := fn.Signature.Recv()
+			if recv == nil || fn.Name() != "Error" || len(fn.Params) != 1 || typeKey(derefType(recv.Type())) != tk {
+				continue
+			}
+			for _, ret := range returnsOf(fn) {
+				if len(ret.Results) != 1 {
+					field = ""
+					break
+				}
+				name := ""
+				switch x := ret.Results[0].(type) {
+				case *ssa.UnOp:
+					if fa, ok := x.X.(*ssa.FieldAddr); ok && (fa.X == ssa.Value(fn.Params[0])) {
+						name = fname(fieldVar(fa.X.Type(), fa.Field))
+					}
+				case *ssa.Field:
+					if st, ok := x.X.Type().Underlying().(*types.Struct); ok && x.X == ssa.Value(fn.Params[0]) {
+						name = fname(st.Field(x.Field))
+					}
+				}
+				if name == "" || field != "" && field != name {
+					field = ""
+					break
+				}
+				field = name
+			}
+		}
+		if field == "" {
+			out[l] |= f
+			continue
+		}
+		fl, sites := vf.FieldStoreSources(tk, field)
+		if len(sites) == 0 {
+			out[l] |= f
+			continue
+		}
+		for l2, f2 := range fl {
+			out[l2] |= f2 | f
+		}
+	}
+	return out
 }
